@@ -41,6 +41,18 @@ theorem truncated_rejected_with_removed_slots (x : Sodg.GX Label Hex) (h : WfG x
 /-- with no removed slot `saveX` is `save` -/
 theorem image_without_removed_slots (g : G Label Hex) : saveX ⟨g, []⟩ = save g := Cd.saveX_nohole g
 
+/-- and the *complete* image of such a graph (`loadX`, Codec/HolesLoad.lean: the decoder with emap's rule "the table is as long as
+    the entry count, a key at or above it is a panic"; equal to `load` wherever `load` returns a graph): with no gap in the keys —
+    the removed slots are exactly the top ones — it loads into a smaller store, with a gap it panics; nothing else happens -/
+theorem complete_image_with_removed_slots (x : Sodg.GX Label Hex) (h : WfG x.g) :
+    loadX x.g.n (saveX x) =
+      if (slotsX x).map Prod.fst = List.range (slotsX x).length then
+        .ok (ofImg x.g.n ⟨x.g.st.toList, x.g.br.toList, (slotsX x).map Prod.snd⟩)
+      else .error .panic := Cd.loadX_saveX x (Cd.wfGX_of_wfG x h)
+
+theorem loadX_is_load_where_load_answers (n : Nat) (w : List UInt8) (g : G Label Hex) (h : load n w = .ok g) :
+    loadX n w = .ok g := Cd.loadX_of_load n w g h
+
 /-- non-vacuity: the demo graph with its slot 1 removed is such a graph, and its image is shorter than the full one -/
 example : ∃ g, demoG = some g ∧ WfG g ∧ (saveX ⟨g, [1]⟩).length < (save g).length := by
   refine ⟨_, rfl, ?_, ?_⟩ <;> decide +kernel
